@@ -132,7 +132,7 @@ func runC20(c *ShardCtx) {
 	if c.Thorough() {
 		n = 5
 	}
-	leaves := []*peg.Expr{peg.Lit("a"), peg.LitI("ab"), peg.Lit("é\n\"\\"), peg.Cls(false, false, "a-c", "]", "x"), peg.Cls(true, true, "a", `\pL`), peg.Any(), peg.Ref("B")}
+	leaves := []*peg.Expr{peg.Lit("a"), peg.LitI("aB"), peg.Lit("é\n\"\\"), peg.Cls(false, false, "a-c", "]", "x"), peg.Cls(true, true, "a", `\pL`), peg.Any(), peg.Ref("B")}
 	// a raw string holding carriage returns (discarded, Go semantics): explicit spelling
 	rawCR := peg.Lit("a\nb")
 	rawCR.Src = "`a\r\r\nb\r`"
